@@ -434,9 +434,29 @@ def suite_sw(p, rng, cap=320):
         pairs = [pairs[min(len(pairs) - 1, int(i * step) + off)] for i in range(cap)]
     return [case("s%d" % i, p, [['new']] + M[a] + [['sleep'], ['wake_up']] + M[b]) for i, (a, b) in enumerate(pairs)]
 
+def suite_tri(p, rng, cap=300):
+    """new; A; B; C for ordered triples of macro steps of the panel's alphabet (sampled evenly, offset drawn from the
+    seed): state set by one call, carried through a second, observed in a third"""
+    import gen_specs
+    M = gen_specs.macros(p)
+    n = len(M)
+    total = n * n * n
+    idx = list(range(total))
+    if total > cap:
+        step = total / float(cap)
+        off = rng.below(max(1, int(step)))
+        idx = [min(total - 1, int(i * step) + off) for i in range(cap)]
+    out = []
+    for i, t in enumerate(idx):
+        a, b, c = t // (n * n), (t // n) % n, t % n
+        out.append(case("t%d" % i, p, [['new']] + M[a] + M[b] + M[c], delay=['none', '0', '1', '250'][i % 4]))
+    return out
+
 def suite(p, name, rng, plan=None):
     if name == 'sw':
         return suite_sw(p, rng)
+    if name == 'tri':
+        return suite_tri(p, rng)
     if name == 'win':
         return suite_win(p, rng)
     if name == 'pair':
